@@ -289,17 +289,19 @@ fn examine(prop: &str, p: &Prepared, w: &Workload, crash_at: u64, power: bool, k
                         // index probes are C02's facet ("every index agrees with its table")
                         let _ = &in_next;
                     }
-                    // the in-flight statement writes a toasted value, or rewrites / deletes rows of a table that holds one
+                    // the table whose scan fails on a dangling TOAST pointer is the one the killed in-flight statement was
+                    // writing to (INSERT of a toasted value, UPDATE / DELETE dropping the chunks of the rows it rewrites)
                     let inflight_toast = !kind.starts_with("ack")
                         && p.refs.get(acked).map(|r| {
-                            r.long_sql || {
-                                let mut it = r.sql.split_whitespace();
-                                let tname = match it.next() {
-                                    Some("UPDATE") => it.next(),
-                                    Some("DELETE") => it.nth(1),
-                                    _ => None,
-                                };
-                                tname.map(|n| p.refs[cand_idx[0]].tables.iter().any(|t| t.name == n && t.rows.iter().any(|row| row.iter().any(|v| matches!(v, Val::Text(s) if s.len() > 1000))))).unwrap_or(false)
+                            let mut it = r.sql.split_whitespace();
+                            let tname = match it.next() {
+                                Some("UPDATE") => it.next(),
+                                Some("DELETE") | Some("INSERT") => it.nth(1),
+                                _ => None,
+                            };
+                            match (tname, &missing) {
+                                (Some(n), Some(m)) => m.contains("dangling_toast_pointer") && m.contains(&format!("FROM {} fails", n)),
+                                _ => false,
                             }
                         }).unwrap_or(false);
                     if prop == "C02" || prop == "C40" {
@@ -308,7 +310,12 @@ fn examine(prop: &str, p: &Prepared, w: &Workload, crash_at: u64, power: bool, k
                         match &missing {
                             Some(m) => {
                                 let f = m.split(':').next().unwrap_or("").to_string();
-                                let sync = w.setup.iter().find_map(|s| s.strip_prefix("PRAGMA synchronous=")).unwrap_or("?");
+                                // NORMAL and OFF behave alike for a killed process (neither forces the log's buffer out)
+                                let sync = match w.setup.iter().find_map(|s| s.strip_prefix("PRAGMA synchronous=")) {
+                                    Some("FULL") => "FULL",
+                                    Some(_) => "not_FULL",
+                                    None => "?",
+                                };
                                 out.set_fail(
                                     format!("{}|{}|{}|acknowledged_rows_damaged|{}|{}{}+sync_{}", prop, model, kind, f, stmt_in_flight, if inflight_toast { "+inflight_touches_toasted_value" } else { "" }, sync),
                                     describe(&format!("the recovered database is no statement-boundary state, and rows that no uncommitted work touched are affected: {}", m.chars().take(500).collect::<String>())),
